@@ -359,8 +359,10 @@ Result apply_patch(File& out_file, RejectWriter& reject_writer, const std::vecto
         } else {
             // The hunk has failed to reply. We now need to write the hunk to the reject file.
             // Per POSIX, ensure offset relative to new file rather than old file.
-            hunk.new_file_range.start_line = saturating_add(hunk.new_file_range.start_line, offset_old_lines_to_new);
-            hunk.old_file_range.start_line = saturating_add(hunk.old_file_range.start_line, offset_old_lines_to_new);
+            // The new start of a diff already accounts for the lines removed before it: never let the sum go below zero,
+            // a negative line number cannot be read back by anybody.
+            hunk.new_file_range.start_line = std::max<LineNumber>(0, saturating_add(hunk.new_file_range.start_line, offset_old_lines_to_new));
+            hunk.old_file_range.start_line = std::max<LineNumber>(0, saturating_add(hunk.old_file_range.start_line, offset_old_lines_to_new));
             reject_writer.write_reject_file(hunk);
         }
 
